@@ -130,9 +130,19 @@ package parsepasses
 //@   modifies *
 //@   ensures[loop-variable-leaves-scope-with-its-loop;C07] len(tc.forVars) == old(len(tc.forVars))
 //@   ghost rec bool = false
-//@   at call (*templateChecker).recurse#0 assert[descends-into-this-node;C07] arg0 == tc && arg1 == node
-//@   at call (*templateChecker).recurse#0 after set rec = true
-//@   ensures[every-node-with-children-is-descended-into;C07] implements(node, ast.ParentNode) ==> rec
+//@   ghost parts int = 0
+//@   at call (*templateChecker).recurse#* assert[descends-into-this-node;C07] arg0 == tc && arg1 == node
+//@   at call (*templateChecker).recurse#* after set rec = true
+//@   at call (*templateChecker).recurse#0 assert[a-let's-value-is-checked-before-its-variable-is-bound;C07] len(tc.letVars) == old(len(tc.letVars))
+//@   at call (*templateChecker).recurse#1 assert[a-let's-content-is-checked-before-its-variable-is-bound;C07] len(tc.letVars) == old(len(tc.letVars))
+//@   at call (*templateChecker).checkTemplate#0 assert[the-loop's-list-is-checked-without-the-loop-variable;C07] arg0 == tc && arg1 == unbox(node, *ast.ForNode).List && len(tc.forVars) == old(len(tc.forVars))
+//@   at call (*templateChecker).checkTemplate#0 after set parts = parts + 1
+//@   at call (*templateChecker).checkTemplate#1 assert[the-loop's-body-is-checked-with-the-loop-variable-on-top;C07] arg0 == tc && arg1 == unbox(node, *ast.ForNode).Body && len(tc.forVars) == old(len(tc.forVars)) + 1 && tc.forVars[len(tc.forVars)-1] == unbox(node, *ast.ForNode).Var
+//@   at call (*templateChecker).checkTemplate#1 after set parts = parts + 1
+//@   at call (*templateChecker).checkTemplate#2 assert[{ifempty}-is-checked-without-the-loop-variable;C07] arg0 == tc && arg1 == unbox(node, *ast.ForNode).IfEmpty && len(tc.forVars) == old(len(tc.forVars))
+//@   at call (*templateChecker).checkTemplate#2 after set parts = parts + 1
+//@   ensures[every-node-with-children-is-descended-into;C07] implements(node, ast.ParentNode) && !typeis(node, *ast.ForNode) ==> rec
+//@   ensures[list-and-body-of-a-loop-are-checked;C07] typeis(node, *ast.ForNode) ==> parts >= 2
 
 // every template of the registry goes through the globals pass; the first
 // failure ends it with an error.
